@@ -2,14 +2,20 @@
 import kernel_common as K
 
 MANIFEST = {
-    "text": "Kernel model (children bookkeeping, graceful flag, tryTerminated, parent/watchers notification, registry, closed flag) replayed "
-            "in lockstep against the real actor system over random trees with terminations, restarts, re-spawns and sends in flight, ending "
-            "with Shutdown. The full statements are proved FALSE of the faithful model with vm_compute witnesses for two open findings "
-            "(C05_shutdown_completes_refuted: lifecycle-handler panic; C05_registry_empty_after_shutdown_refuted: re-spawn before the parent "
-            "was notified). Everything else (descendant order, drain before graceful terminate, closed, empty registry) is checked per run by "
-            "step-by-step equality with the model and the C05 monitors; universally quantified lemmas are being added.",
-    "note": "Partial (two refuted clauses = open findings; no universal theorem for the ordering clause yet). Same trusted base as C03.",
-    "technique": "Coq proof on a message-step kernel model + lockstep differential replay of the real actor system inside Coq",
+    "text": "Kernel model (children bookkeeping incl. stale-notice handling, graceful flag, tryTerminated, parent/watchers notification, "
+            "registry, closed flag) replayed in lockstep against the real actor system over random trees with terminations, restarts, "
+            "re-spawns, watch-before-spawn, spawns from termination handlers and sends in flight, ending with Shutdown. Proved for every "
+            "role table that never spawns from an actor's own OnTerminated handler nor under a system address, and every label sequence "
+            "(Kernel/Hierarchy.v, invariant RI/H2..H5 over registry, parent and children tables): C05_hierarchical_partial — in every "
+            "reachable state a still-registered actor has a still-registered parent that lists it, so no actor finishes terminating before "
+            "any descendant; C05_no_registered_child_of_unregistered_parent_partial. The excluded script behaviour is a real defect, proved "
+            "as C05_registry_empty_after_shutdown_refuted (spawn inside the final OnTerminated leaks the child: open finding); "
+            "C05_shutdown_completes_refuted (lifecycle-handler panic: open finding). Graceful drain, closed flag and empty registry are "
+            "checked per run by step-by-step equality with the model and the C05 monitors.",
+    "note": "Partial: the hierarchy theorem carries two hypotheses on the scripts; 'Shutdown returns only after everyone terminated' and the "
+            "graceful-drain clause are decided per run (correspondence + monitors), not by theorem. Two open findings. Same trusted base as C03.",
+    "technique": "Coq proof (registry/parent/children invariant over every run) on a message-step kernel model + lockstep differential replay "
+                 "of the real actor system inside Coq",
 }
 
 
